@@ -70,8 +70,57 @@ def oracle(M, n_done, chunks, rc, lst, extra, crashed):
     return None
 
 
+def driver_tie(ck):
+    """the driver side of 'afterwards the newest state is in the main dump file': when the run stops at its wall-clock limit it takes a
+    final dump and then hands over to the resubmit command; what that command finds in restart.dump must be the complete newest dump
+    (it is copied aside by the resubmit command itself and compared with the file after the run has ended), and with a restart folder
+    that is not the working directory the dumps and backups must be in THAT folder"""
+    okb, logb = vf.repo_ninja(["CMacIonize"])
+    if not okb:
+        ck.breaks.append("whole binary does not build: " + logb[-800:])
+        return 0
+    exe = os.path.join(vf.REPOBUILD, "rundir", "CMacIonize")
+    conf = os.path.join(vf.VERIF, "harness", "configs")
+    n = 0
+    for name, rdir in (("resubmit_cwd", "."), ("resubmit_subfolder", "dumps")):
+        w = os.path.join(ck.scratch, "drv_" + name)
+        shutil.rmtree(w, ignore_errors=True)
+        os.makedirs(os.path.join(w, rdir), exist_ok=True)
+        for f in os.listdir(conf):
+            shutil.copy(os.path.join(conf, f), w)
+        txt = open(os.path.join(conf, "hydro.param")).read()
+        txt = txt.replace("RestartManager:\n  path: .\n  output interval: 0. s\n  maximum number of backups: 1\n",
+                          "RestartManager:\n  path: %s\n  output interval: 0. s\n  maximum number of backups: 2\n  maximum time: 0.000001 s\n  resubmit command: cp %s/restart.dump seen_by_resubmitted_job.dump\n" % (rdir, rdir))
+        open(os.path.join(w, "run.param"), "w").write(txt)
+        rc, out = vf.sh([exe, "--task-based-rhd", "--params", "run.param", "--threads", "1", "--dirty"], cwd=w, timeout=300)
+        n += 1
+        seen, final = os.path.join(w, "seen_by_resubmitted_job.dump"), os.path.join(w, rdir, "restart.dump")
+        why = None
+        if rc != 0:
+            why = "the run exits with status %d" % rc
+        elif not os.path.exists(final):
+            why = "no %s/restart.dump after the run (the restart folder is '%s')" % (rdir, rdir)
+        elif not os.path.exists(seen):
+            ck.breaks.append("driver tie: the resubmit command was not executed in `%s` (wall-clock limit not reached?)" % name)
+        else:
+            a, b = open(seen, "rb").read(), open(final, "rb").read()
+            if a != b:
+                why = ("when the resubmit command runs, restart.dump is not the complete newest dump: it holds %d bytes, the finished file %d bytes (first difference at offset %d): "
+                       "a resubmitted job would restart from a truncated file" % (len(a), len(b), next((i for i in range(min(len(a), len(b))) if a[i] != b[i]), min(len(a), len(b)))))
+        if not why and rdir != ".":
+            stray = [f for f in os.listdir(w) if f.startswith("restart.")]
+            if stray:
+                why = "restart files %s are written to the working directory although the restart folder is '%s'" % (stray, rdir)
+        if why:
+            ck.violation("C14 fails on the real binary (task-based RHD stopped by its wall-clock limit, restart folder '%s'): %s" % (rdir, why), {"driver_run": name}, key={"kind": "driver", "case": name})
+        shutil.rmtree(w, ignore_errors=True)
+    ck.coverage["driver_runs_checked"] = n
+    return n
+
+
 def run(ck):
     ck.prove()
+    driver_tie(ck)
     d = ck.scratch
     ok1, log1 = vf.coq_extract("C14", d)
     ok2, log2 = (False, "") if not ok1 else vf.ocaml_build(d, ["c14_model"], os.path.join(vf.VERIF, "ocaml/c14_driver.ml"), "model")
@@ -170,6 +219,11 @@ def run(ck):
 
 
 def replay(ck, rp):
+    if "driver_run" in rp.get("replay", {}):
+        driver_tie(ck)
+        bad = [v for v in ck.violations if v["key"].get("kind") == "driver"]
+        print("REPLAY:", bad[0]["what"] if bad else "property holds on this input")
+        return 1 if bad else 0
     d = ck.scratch
     ok3, log3 = vf.cxx_build(os.path.join(vf.VERIF, "harness/c14/rotate_harness.cpp"), os.path.join(d, "impl"), openmp=False)
     r = rp["replay"]
